@@ -524,13 +524,13 @@ static void runMergeTask(W& w, const MergeTask& t, char oracle)
 
 // ---------------------------------------------------------------------------------------------
 // C17 alphabet (state-relative)
-constexpr int SYM_PER_EP = 30;
+constexpr int SYM_PER_EP = 31;
 // endpoint D takes part with a reduced symbol set {U, F, I, L, payload-type 0}
 constexpr int ND = 5;
 static const int kDKinds[ND] = {0, 2, 5, 6, 12};
 constexpr int EPLESS = 3 * SYM_PER_EP + ND;   // first endpoint-less symbol
 constexpr int NSYM = EPLESS + 5;
-static const char* kSymName[SYM_PER_EP] = {"U", "UU", "F", "Ft", "F2", "I", "L", "Ib", "Lb", "Lv", "Lt", "It", "Z", "E", "O", "H", "UF", "P", "UI", "UL", "P1", "T0", "L0", "Z0", "Id", "Ld", "Ld0", "Sh", "Sl", "Ir"};
+static const char* kSymName[SYM_PER_EP] = {"U", "UU", "F", "Ft", "F2", "I", "L", "Ib", "Lb", "Lv", "Lt", "It", "Z", "E", "O", "H", "UF", "P", "UI", "UL", "P1", "T0", "L0", "Z0", "Id", "Ld", "Ld0", "Sh", "Sl", "Ir", "XF"};
 
 static std::string symName(int sym)
 {
@@ -678,6 +678,15 @@ static Bytes symbolFrame(int sym, const ref::ReassemblyModel& m, bool& isNull, i
         case 24: fh.seq = 1; fh.version = 1; fh.msgType = 0; return ref::buildFrame(fh, {seg(ref::SEG_MID, 5, 25)});
         case 25: fh.seq = 1; fh.version = 1; fh.msgType = 0; return ref::buildFrame(fh, {seg(ref::SEG_LAST, 5, 26)});
         case 26: fh.seq = 1; fh.version = 1; fh.msgType = 0; return ref::buildFrame(fh, {seg(ref::SEG_LAST, 0, 27)});
+        // a well-formed message whose TYPED payload its class rejects (a CAN frame reporting a CRC error: delivered, marked invalid)
+        // followed in the same frame by a first segment: the decoder steps over the rejected payload by its declared length
+        case 30:
+        {
+            ref::CanF c;
+            c.idword = 0x2AB; c.dlc = 4; c.dataLen = 4; c.data = pattern(4, 30); c.flags = 0x0001;
+            fh.seq = 310;
+            return ref::buildFrame(fh, {ref::mkMsg(ref::PT_CAN, ref::canPayload(c), 0, 0x531, 0x631), seg(ref::SEG_FIRST, 3, 31)});
+        }
         // the intermediary segment of symbol I once more, byte for byte, with the counter the open message saw LAST (a frame duplicated
         // on a redundant link): not the next segment, so it ends the message like any other out-of-sequence continuation
         case 29: fh.seq = (uint16_t) (next - 1); fh.version = over; fh.msgType = otyp; return ref::buildFrame(fh, {seg(ref::SEG_MID, 3, 7)});
@@ -1721,7 +1730,7 @@ int main(int argc, char** argv)
                         break;
                 }
             }
-            runBfs(run, thorough ? 11 : 9, oracle);
+            runBfs(run, thorough ? 10 : 8, oracle);   // (was 11 / 9 with the 80-symbol alphabet; the alphabet has 103 symbols now)
         }
         if (prop == "C05")
             run.rule = "every interleaving (merge) of the frame streams of 2 and 3 endpoints, each stream one of 7 templates over {F,I,L,U} x 8 variants "
